@@ -68,6 +68,9 @@ def run(ctx) -> None:
     from . import c08, c19
 
     ctx.reuse("C04.alias", c08.id_width)
+    from . import objmodel
+
+    ctx.guard("C04.frame", objmodel.labware_model, "C04.frame")
     # "its initial volume": the initial volumes are laid out as given (row-major reshape, scalars broadcast) in a float array
     from . import c20
 
@@ -364,7 +367,7 @@ def pairing_family(ctx) -> None:
                     ctx.rep.refuted(rule, f"{f.qualname}/{what}", f"the single volume is 'broadcast' with `{show(scaled[0])[:70]}`: `*` on a numpy array multiplies its values (it repeats only a "
                                     "list) - every well is booked with n times the volume", where=f.where(expr))
                     continue
-                if has_unknown(base):
+                if has_unknown(base) or any(is_sym(x_, "comp") for x_ in ast.walk(term)):
                     ctx.rep.inconclusive(rule, f"{f.qualname}/{what}", f"origin of the paired sequence unknown: {show(term)[:80]}", where=f.where(expr))
                 else:
                     ctx.rep.refuted(rule, f"{f.qualname}/{what}", f"paired sequence `{show(term)[:80]}` is not a normalisation of an argument of {f.short}", where=f.where(expr))
